@@ -232,6 +232,7 @@ type ctl struct {
 	shutdownIn               string // "" | fini | suspend : the director is inside that call
 	inErrRunning             map[int64]bool
 	feedPending              int
+	lastGrant, lastPoint     string
 	fixed                    bool // variant=stopq: scanInput and inputLoop also select on stopQ (fixes/C06-shutdown-selects-stopq.patch)
 }
 
@@ -573,7 +574,7 @@ const (
 func (c *ctl) run(stop func() bool) schedResult {
 	for {
 		// wait for quiescence
-		deadline := time.After(60 * time.Second)
+		deadline := time.After(25 * time.Second)
 		for {
 			c.mu.Lock()
 			q := c.running == 0
@@ -645,6 +646,8 @@ func (c *ctl) run(stop func() bool) schedResult {
 			k -= g.weight
 		}
 		pick.parked = false
+		c.lastGrant = pick.name + "@" + pick.point
+		c.lastPoint = pick.point
 		c.running++
 		c.steps++
 		c.mu.Unlock()
@@ -1229,8 +1232,24 @@ func runCase(line string) output {
 			obs = "ERROR the director did not finish: " + sc.whoParked()
 		}
 	case resTimeout:
+		// a goroutine was granted an operation that is enabled under Go's channel/WaitGroup semantics for the state
+		// the points reported, and 25 s later it has still not come back: the operation blocks in the real code
+		c.mu.Lock()
+		lg, lp := c.lastGrant, c.lastPoint
+		c.mu.Unlock()
+		txt, _ := dump()
+		var keep []string
+		for _, blk := range strings.Split(txt, "\n\n") {
+			if strings.Contains(blk, "gdamore/tcell/v2.") {
+				l := strings.Split(blk, "\n")
+				if len(l) > 9 {
+					l = l[:9]
+				}
+				keep = append(keep, strings.Join(l, "\n"))
+			}
+		}
+		sc.find("blocks:"+lp, "%s was let go at an operation that cannot block in the tracked state (eventQ %d/%d keychan %d/%d quit=%v stopQ-closed=%v wg=%d) but did not reach its next schedule point within 25 s; goroutines inside tcell:\n%s", lg, c.eq, c.eqCap, c.kc, c.kcCap, c.quit, c.stop, c.wg, strings.Join(keep, "\n\n"))
 		c.release()
-		obs = "ERROR a granted goroutine did not reach its next point within 60 s: " + sc.whoParked()
 	}
 	_ = dirPanic
 	c.mu.Lock()
